@@ -90,6 +90,52 @@ type pathState struct {
 	aliasE   map[string]aliasExpr // boolean locals that name a condition: the condition itself (valid while alias[name] == text)
 	loopSel  map[string]*selSet   // dispatch decisions taken inside a loop body (reported, never used to prune)
 	fieldE   map[string]ast.Expr  // "x.f" -> the boolean condition stored in that field by a composite literal / assignment
+	fieldA   map[string]fieldAtom // "x.f" -> the same condition reduced to one atom / a constant (valid in any scope)
+}
+
+// fieldAtom: a stored boolean condition that is a constant on this path or a single atom.
+type fieldAtom struct {
+	name    string
+	pol     bool // the field is true iff the atom has this value
+	isConst bool
+	val     bool
+}
+
+// condAtom reduces the boolean expression e, evaluated in st, to a constant or a single atom.
+func (tr *tracer) condAtom(info *types.Info, e ast.Expr, st *pathState) (fieldAtom, bool) {
+	probe := st.clone()
+	conts := tr.evalBool(info, e, probe)
+	if len(conts) == 1 && len(conts[0].st.assume) == len(st.assume) {
+		return fieldAtom{isConst: true, val: conts[0].val}, true
+	}
+	if len(conts) != 2 {
+		return fieldAtom{}, false
+	}
+	name := ""
+	pol := false
+	for _, c := range conts {
+		var added []string
+		for k := range c.st.assume {
+			if _, had := st.assume[k]; !had {
+				added = append(added, k)
+			}
+		}
+		if len(added) != 1 || name != "" && added[0] != name {
+			return fieldAtom{}, false
+		}
+		name = added[0]
+		if c.st.assume[name] {
+			pol = c.val
+		}
+	}
+	return fieldAtom{name: name, pol: pol}, true
+}
+
+func (tr *tracer) evalFieldAtom(fa fieldAtom, st *pathState) []boolCont {
+	if fa.isConst {
+		return []boolCont{{st, fa.val}}
+	}
+	return tr.atom(fa.name, st, fa.pol)
 }
 
 type aliasExpr struct {
@@ -233,6 +279,12 @@ func (s *pathState) clone() *pathState {
 			n.loopSel[k] = v
 		}
 	}
+	if len(s.fieldA) > 0 {
+		n.fieldA = map[string]fieldAtom{}
+		for k, v := range s.fieldA {
+			n.fieldA[k] = v
+		}
+	}
 	if len(s.fieldE) > 0 {
 		n.fieldE = map[string]ast.Expr{}
 		for k, v := range s.fieldE {
@@ -330,9 +382,16 @@ func (tr *tracer) evalBool(info *types.Info, e ast.Expr, st *pathState) []boolCo
 			case "false":
 				return []boolCont{{st, false}}
 			}
+			// a parameter bound to a field that holds a recorded condition
+			if fa, ok := st.fieldA[a]; ok {
+				return tr.evalFieldAtom(fa, st)
+			}
 			return tr.atom(a, st, true)
 		}
 	case *ast.SelectorExpr:
+		if fa, ok := st.fieldA[st.resolve(normAtom(x))]; ok {
+			return tr.evalFieldAtom(fa, st)
+		}
 		if len(st.fieldE) > 0 {
 			if fe, ok := st.fieldE[st.resolve(normAtom(x))]; ok {
 				return tr.evalBool(info, fe, st)
@@ -724,11 +783,16 @@ func (tr *tracer) execStmt(fi *FuncInfo, s ast.Stmt, st *pathState) []*pathState
 		for _, s2 := range states {
 			for _, l := range x.Lhs {
 				s2.killSel(normAtom(l))
-				if len(s2.fieldE) > 0 {
+				if len(s2.fieldE) > 0 || len(s2.fieldA) > 0 {
 					key := s2.resolve(normAtom(l))
 					for k := range s2.fieldE {
 						if k == key || strings.HasPrefix(k, key+".") {
 							delete(s2.fieldE, k)
+						}
+					}
+					for k := range s2.fieldA {
+						if k == key || strings.HasPrefix(k, key+".") {
+							delete(s2.fieldA, k)
 						}
 					}
 				}
@@ -1430,6 +1494,39 @@ func (tr *tracer) execExpr(fi *FuncInfo, e ast.Expr, states []*pathState) []*pat
 							// resolve through the caller's aliases
 							tmp := &pathState{alias: savedAlias}
 							a = tmp.resolve(a)
+							// a struct built in the argument list: its boolean fields are the conditions given there
+							{
+								lit := argE
+								if u, isU := lit.(*ast.UnaryExpr); isU && u.Op == token.AND {
+									lit = ast.Unparen(u.X)
+								}
+								if cl, isCL := lit.(*ast.CompositeLit); isCL {
+									a = nm.Name
+									for fk := range sub.fieldA {
+										if strings.HasPrefix(fk, nm.Name+".") {
+											delete(sub.fieldA, fk)
+										}
+									}
+									for _, el := range cl.Elts {
+										kv, isKV := el.(*ast.KeyValueExpr)
+										if !isKV {
+											continue
+										}
+										kid, isId := kv.Key.(*ast.Ident)
+										if t := info.TypeOf(kv.Value); !isId || t == nil {
+											continue
+										} else if b, isB := t.Underlying().(*types.Basic); !isB || b.Info()&types.IsBoolean == 0 {
+											continue
+										}
+										if fa, ok := tr.condAtom(info, kv.Value, st); ok {
+											if sub.fieldA == nil {
+												sub.fieldA = map[string]fieldAtom{}
+											}
+											sub.fieldA[nm.Name+"."+kid.Name] = fa
+										}
+									}
+								}
+							}
 							if id, isId := ast.Unparen(c.Args[k]).(*ast.Ident); isId && savedKnown[id.Name] {
 								// a constant-propagated local of the caller keeps its value in the callee
 								sub.store[nm.Name], sub.known[nm.Name] = savedStore[id.Name], true
@@ -1806,6 +1903,14 @@ func (tr *tracer) recordFieldConds(info *types.Info, lhs, rhs ast.Expr, st *path
 			st.fieldE = map[string]ast.Expr{}
 		}
 		st.fieldE[key] = e
+		if fa, ok := tr.condAtom(info, e, st); ok {
+			if st.fieldA == nil {
+				st.fieldA = map[string]fieldAtom{}
+			}
+			st.fieldA[key] = fa
+		} else {
+			delete(st.fieldA, key)
+		}
 	}
 	base := st.resolve(normAtom(lhs))
 	r := ast.Unparen(rhs)
